@@ -1278,3 +1278,23 @@ func init() {
 		New:    "\t\t\tif nd := field.Value().Data(); datakind(kind) && field.Value().Kind() == kind && len(nd) == len(data) {\n\t\t\t\tcopy(b[i-len(data):i], nd)\n\t\t\t\treturn fields\n\t\t\t}\n\t\t\t// replace\n\t\t\treturn List{putfield(b, field, s, i)}",
 		Expect: "R5.field-list-persistent", Key: "(List).Set→copy into", Why: "the seeded change C05e"})
 }
+
+func init() {
+	// ---- R9.replay-tolerates-later-state ------------------------------------------------------------------------
+	mutant(&Mutant{Name: "loader-tolerates-only-missing-key", Props: []string{"C09"}, File: "internal/server/aof.go",
+		Old:    "\treturn !(err == errKeyNotFound || err == errIDNotFound)\n",
+		New:    "\treturn err != errKeyNotFound\n",
+		Expect: "R9.replay-tolerates-later-state", Key: "cmdFSET→errIDNotFound", Why: "an FSET captured during a rewrite whose object was deleted before the scan reached it stops the loader"})
+	mutant(&Mutant{Name: "drop-refused-while-hooked", Props: []string{"C09"}, File: fCrud,
+		Old:    "\t// >> Operation\n\tcol := s.cmdDROPop(key)\n",
+		New:    "\t// >> Operation\n\thooked := false\n\ts.hooks.Ascend(nil, func(v interface{}) bool {\n\t\thooked = hooked || v.(*Hook).Key == key\n\t\treturn true\n\t})\n\tif hooked {\n\t\treturn retwerr(errKeyHasHooksSet)\n\t}\n\tcol := s.cmdDROPop(key)\n",
+		Expect: "R9.replay-tolerates-later-state", Key: "cmdDROP→errKeyHasHooksSet", Why: "a new state-dependent refusal outside the loader's tolerated set"})
+	mutant(&Mutant{Name: "neutral-fatal-predicate-as-switch", Props: []string{"C09"}, File: "internal/server/aof.go", Neutral: true,
+		Old: "\treturn !(err == errKeyNotFound || err == errIDNotFound)\n",
+		New: "\tswitch err {\n\tcase errKeyNotFound, errIDNotFound:\n\t\treturn false\n\t}\n\treturn true\n",
+		Why: "the same predicate as a tagged switch"})
+	mutant(&Mutant{Name: "neutral-fatal-predicate-early-returns", Props: []string{"C09"}, File: "internal/server/aof.go", Neutral: true,
+		Old: "\treturn !(err == errKeyNotFound || err == errIDNotFound)\n",
+		New: "\tif err == errKeyNotFound {\n\t\treturn false\n\t}\n\tmissing := errIDNotFound == err\n\treturn !missing\n",
+		Why: "the same predicate with early returns and a local"})
+}
